@@ -168,26 +168,39 @@ def rule_glue(rep: Report, rid="C02.glue") -> None:
 
 
 def rule_dispatch(rep: Report, rid: str) -> None:
+    """match_token(state, token, context) hands (token, context) to match_token_at_<state> and returns its result, for every
+    state of the table; any other state number raises.  Decided by evaluating match_token once per constant state with the
+    state methods kept symbolic, so any dispatch mechanism (dict, helper returning the table, if-chain) reads the same."""
+    from ..absint import new_interp, const, fmt
+    from .. import nf
     pt = ptable()
     fi = pt.dispatch_fi
     rep.used_function(fi.qualname)
-    for n in sorted(pt.states):
-        rep.ob(rid, f"dispatch[{n}] is match_token_at_{n}", pt.dispatch.get(n) == f"match_token_at_{n}",
-               file=PARSER_FILE, line=fi.node.lineno, function=fi.qualname,
-               expected=f"match_token_at_{n}", found=pt.dispatch.get(n))
-    for n in sorted(pt.dispatch):
-        if n not in pt.states:
-            rep.ob(rid, f"dispatch[{n}] names an existing state method", False, file=PARSER_FILE, line=fi.node.lineno,
-                   function=fi.qualname, expected="defined state", found=pt.dispatch[n])
-    # the selected method is called with (token, context) of this call and its result returned
     p = fi.params()
-    calls = [n for n in walk_no_nested_defs(fi.node) if isinstance(n, ast.Return) and isinstance(n.value, ast.Call)
-             and isinstance(n.value.func, ast.Subscript)]
-    ok = len(calls) == 1 and [unparse(a) for a in calls[0].value.args] == [p[2], p[3]] \
-        and unparse(calls[0].value.func.slice) == p[1]
-    rep.ob(rid, "match_token returns dispatch[state](token, context)", ok, file=PARSER_FILE, line=fi.node.lineno,
-           function=fi.qualname, expected="return state_map[state](token, context)",
-           found=[unparse(c) for c in calls])
+    if len(p) < 4:
+        raise AnalysisError("anchor vanished: Parser.match_token(state, token, context)")
+    tok, ctx = ("param", p[2]), ("param", p[3])
+
+    def stub(k):
+        def h(I_, st_, fi_, args, kwargs, n, tree_):
+            tree_.append(("ev", "state_fn", (k,) + tuple(args), getattr(n, "lineno", None), 0))
+            return ("state_result", k, tuple(args[1:]))
+        return h
+    for n in sorted(pt.states) + [max(pt.states) + 1, -1]:
+        I = new_interp()
+        for k in pt.states:
+            I.intrinsics[f"{PC}.match_token_at_{k}"] = stub(k)
+        tree, rv, st = I.run(fi.qualname, args={p[1]: const(n)})
+        calls = [e for e, c in nf.iter_nodes(tree) if e[0] == "ev" and e[1] == "state_fn"]
+        raises = [e for e, c in nf.iter_nodes(tree) if e[0] == "raise"]
+        if n in pt.states:
+            ok = rv == ("state_result", n, (tok, ctx)) and len(calls) == 1 and not raises
+            rep.ob(rid, f"dispatch[{n}] is match_token_at_{n}", ok, file=PARSER_FILE, line=fi.node.lineno, function=fi.qualname,
+                   expected=f"return self.match_token_at_{n}(token, context)", found=fmt(rv, I)[:160])
+        else:
+            ok = not calls and len(raises) >= 1 and rv[0] != "state_result"
+            rep.ob(rid, f"a state number outside the table ({n}) is an error, not a transition", ok, file=PARSER_FILE, line=fi.node.lineno,
+                   function=fi.qualname, expected="raise", found=fmt(rv, I)[:160])
 
 
 def rule_parse_frame(rep: Report, rid: str) -> None:
